@@ -40,6 +40,14 @@ def run(ctx):
         for k, v in optimizers.param_variants(name):
             js.append({"name": name, "kind": "cont-sym", "specs": trace.task_specs(rng, "cont-sym", 3), "objective": "sphere", "minmax": "min", "seed": rng.randrange(1, 10 ** 6),
                        "cfg": {"max_cycles": 2, "fitness_error": None, k: v}, "mode": "serial", "trace": False})
+    # tasks whose FIRST variable is a multi-variable followed by others (their bound lists are fields of the caller's variables)
+    for name in optimizers.names():
+        for _ in range(2 if not ctx.thorough else 6):
+            k = rng.choice([2, 3])
+            first = rng.choice(["contMulti", "multiObj"])
+            specs = [{"k": first, "lbs": [-5.0] * k, "ubs": [5.0] * k}, {"k": "disc", "n": 3, "pool": 1}, {"k": "cont", "lb": 0.0, "ub": 2.0}]
+            js.append({"name": name, "kind": "multi-first-mixed", "specs": specs, "objective": rng.choice(["sphere", "linear"]), "minmax": rng.choice(["min", "max"]),
+                       "seed": rng.randrange(1, 10 ** 6), "cfg": {"max_cycles": 2, "fitness_error": None}, "mode": "serial", "trace": False})
     results = pmap(trace.run_traced, js)
     for r in results:
         ctx.case(repr(oracles.job_key(r["job"])), kind=f"{r['job']['kind']}:{r['job']['mode']}:{'ok' if 'result' in r else 'raised'}")
